@@ -146,13 +146,15 @@ Example C07_tables_example :
 Proof. do 6 eexists. vm_compute. repeat split; reflexivity. Qed.
 
 (* ---- order independence for nested data, to any depth ----
-   Collections built from leaf values, Option / newtype wrappers, sequences and records (distinct keys per record), nested to any depth
+   Collections built from leaf values, Option / newtype wrappers, nulls written as None or as the unit value, sequences, records and - when maps are traced as structs -
+   records presented as maps with string keys (JSON objects; distinct keys per record), nested to any depth
    and homogeneous at every position (class Hom: tables, nested records, lists of records, records with list fields, optional
    anything): the same samples in ANY order give the same tracer - the same shape, the same primitive types and the same
    nullability at every position - whenever both orders trace; `teq` is equality up to the order of record fields (which is
    first-seen, C07_fields_in_first_seen_order) and the internal sample counters.  By induction on the depth from the leaf closed
    form, trace_mark, the projection theorem for records and its analogue for sequences.  (Tuples, maps traced as maps and enum
-   variants are not in the class: they stay differential.) *)
+   variants are not in the class: they stay differential.  The class covers what serde_json::Value produces: objects, arrays,
+   strings, numbers, booleans and null.) *)
 Theorem C07_nested_order_independent : forall o n d vs vs' t t',
   Hom o n vs -> Permutation vs vs' ->
   trace_seq' o d vs (Ok (TUnknown false)) = Ok t -> trace_seq' o d vs' (Ok (TUnknown false)) = Ok t' -> teq t t'.
@@ -168,7 +170,7 @@ Example C07_nested_example :
                 trace_seq' default_opts 0 [c07_s3; c07_s1; c07_s2] (Ok (TUnknown false)) = Ok t' /\ t <> t').
 Proof.
   split.
-  - right. right. exists [[(b "id", VInt I32 1); (b "tags", VSeq [VStr (b "x"); VNone]); (b "pos", VSome (VStruct [(b "x", VF64 0); (b "y", VF64 0)]))];
+  - right. right. left. exists [[(b "id", VInt I32 1); (b "tags", VSeq [VStr (b "x"); VNone]); (b "pos", VSome (VStruct [(b "x", VF64 0); (b "y", VF64 0)]))];
                          [(b "id", VInt I32 2); (b "pos", VNone); (b "items", VSeq [VStruct [(b "n", VInt U8 1)]; VStruct [(b "n", VInt U8 2); (b "w", VBool true)]])];
                          [(b "tags", VSeq []); (b "id", VInt I32 3); (b "items", VSeq [])]].
     split; [reflexivity|]. split; [repeat constructor; cbn; intuition discriminate|]. intros k.
@@ -176,18 +178,43 @@ Proof.
     destruct (bytes_eqb (b "tags") k) eqn:E2.
     { apply bytes_eqb_eq in E2. subst k. right. left. exists [[VStr (b "x"); VNone]; []]. split; [reflexivity|]. left. vm_compute. eexists; reflexivity. }
     destruct (bytes_eqb (b "pos") k) eqn:E3.
-    { apply bytes_eqb_eq in E3. subst k. right. right. exists [[(b "x", VF64 0); (b "y", VF64 0)]]. split; [reflexivity|]. split; [repeat constructor; cbn; intuition discriminate|].
+    { apply bytes_eqb_eq in E3. subst k. right. right. left. exists [[(b "x", VF64 0); (b "y", VF64 0)]]. split; [reflexivity|]. split; [repeat constructor; cbn; intuition discriminate|].
       intros k'. destruct (bytes_eqb (b "x") k') eqn:F1; [apply bytes_eqb_eq in F1; subst k'; left; vm_compute; eexists; reflexivity|].
       destruct (bytes_eqb (b "y") k') eqn:F2; [apply bytes_eqb_eq in F2; subst k'; left; vm_compute; eexists; reflexivity|].
       left. exists []. unfold vals. cbn [flat_map flookup]. rewrite F1, F2. reflexivity. }
     destruct (bytes_eqb (b "items") k) eqn:E4.
     { apply bytes_eqb_eq in E4. subst k. right. left. exists [[VStruct [(b "n", VInt U8 1)]; VStruct [(b "n", VInt U8 2); (b "w", VBool true)]]; []]. split; [reflexivity|].
-      right. right. exists [[(b "n", VInt U8 1)]; [(b "n", VInt U8 2); (b "w", VBool true)]]. split; [reflexivity|]. split; [repeat constructor; cbn; intuition discriminate|].
+      right. right. left. exists [[(b "n", VInt U8 1)]; [(b "n", VInt U8 2); (b "w", VBool true)]]. split; [reflexivity|]. split; [repeat constructor; cbn; intuition discriminate|].
       intros k'. destruct (bytes_eqb (b "n") k') eqn:F1; [apply bytes_eqb_eq in F1; subst k'; left; vm_compute; eexists; reflexivity|].
       destruct (bytes_eqb (b "w") k') eqn:F2; [apply bytes_eqb_eq in F2; subst k'; left; vm_compute; eexists; reflexivity|].
       left. exists []. unfold vals. cbn [flat_map flookup]. rewrite F1, F2. reflexivity. }
     left. exists []. unfold vals. cbn [flat_map flookup]. rewrite E1, E2, E3, E4. reflexivity.
   - do 2 eexists. split; [vm_compute; reflexivity|]. split; [vm_compute; reflexivity|]. discriminate.
+Qed.
+
+(* non-vacuity on JSON-like data: objects as maps with string keys, null as the unit value, arrays; sorted fields in the schema *)
+Definition c07_j1 : Value := VMap [(VStr (b "b"), VInt I64 1); (VStr (b "a"), VSeq [VUnit; VStr (b "x")])].
+Definition c07_j2 : Value := VMap [(VStr (b "a"), VUnit); (VStr (b "c"), VMap [(VStr (b "z"), VBool true)])].
+Example C07_json_example :
+  Hom default_opts 2 [c07_j1; c07_j2; VUnit] /\
+  exists fs1 fs2, from_samples {| o_allow_null := true; o_map_as_struct := true; o_large_list := true; o_large_utf8 := true; o_dict := false;
+                                   o_coerce := false; o_to_string := false; o_guess_dates := false; o_enums_str := false |} [] [c07_j1; c07_j2] = Ok fs1 /\
+                  from_samples {| o_allow_null := true; o_map_as_struct := true; o_large_list := true; o_large_utf8 := true; o_dict := false;
+                                   o_coerce := false; o_to_string := false; o_guess_dates := false; o_enums_str := false |} [] [c07_j2; c07_j1] = Ok fs2 /\
+                  fs1 = fs2 /\ map sf_name fs1 = [b "a"; b "b"; b "c"].
+Proof.
+  split.
+  - right. right. right. split; [reflexivity|]. exists [[(b "b", VInt I64 1); (b "a", VSeq [VUnit; VStr (b "x")])]; [(b "a", VUnit); (b "c", VMap [(VStr (b "z"), VBool true)])]].
+    split; [reflexivity|]. split; [repeat constructor; cbn; intuition discriminate|]. intros k.
+    destruct (bytes_eqb (b "b") k) eqn:E1; [apply bytes_eqb_eq in E1; subst k; left; vm_compute; eexists; reflexivity|].
+    destruct (bytes_eqb (b "a") k) eqn:E2.
+    { apply bytes_eqb_eq in E2. subst k. right. left. exists [[VUnit; VStr (b "x")]]. split; [reflexivity|]. left. vm_compute. eexists; reflexivity. }
+    destruct (bytes_eqb (b "c") k) eqn:E3.
+    { apply bytes_eqb_eq in E3. subst k. right. right. right. split; [reflexivity|]. exists [[(b "z", VBool true)]]. split; [reflexivity|]. split; [repeat constructor; cbn; intuition discriminate|].
+      intros k'. destruct (bytes_eqb (b "z") k') eqn:F1; [apply bytes_eqb_eq in F1; subst k'; left; vm_compute; eexists; reflexivity|].
+      left. exists []. unfold vals. cbn [flat_map flookup]. rewrite F1. reflexivity. }
+    left. exists []. unfold vals. cbn [flat_map flookup]. rewrite E1, E2, E3. reflexivity.
+  - do 2 eexists. split; [vm_compute; reflexivity|]. split; [vm_compute; reflexivity|]. split; reflexivity.
 Qed.
 
 (* ... and at the level of schemas: from_samples on nested data (the class Hom) gives, for the same samples in any two orders that both
